@@ -74,6 +74,9 @@ def gen_spec(rng):
 		fields.append(('Content-Length', rng.choice(('5', '0', '99999'))))
 	if rng.random() < 0.12:
 		fields.append(('Transfer-Encoding', 'chunked'))
+	elif rng.random() < 0.03:
+		# the coding name in another letter case: refused (InvalidHeader, no octets produced) or framed as chunked, never half of each
+		fields.append(('Transfer-Encoding', rng.choice(('Chunked', 'CHUNKED', 'chunkeD'))))
 	chunked = rng.choice((None, None, True, False))
 	coding = rng.choice((None, None, None, 'gzip', 'deflate')) if kind == 'response' else None      # the composer applies a content coding to responses only
 	version = rng.choice(((1, 1), (1, 1), (1, 1), (1, 0)))
@@ -303,8 +306,12 @@ def oracle(case):
 	try:
 		outs, err, b = run_ops(spec, ops)
 	except Exception as e:
+		if exc_name(e) == 'InvalidHeader' and any(k == 'Transfer-Encoding' and v != 'chunked' for k, v in fields):
+			return None      # a transfer coding name the library does not know in that spelling: refused, nothing was produced
 		return {'what': 'building the message raised %s: %s' % (exc_name(e), e), 'case': describe(case), 'finding': None}
 	if err is not None:
+		if exc_name(err) == 'InvalidHeader' and any(k == 'Transfer-Encoding' and v != 'chunked' for k, v in fields):
+			return None
 		return {'what': 'prepare()/compose raised %s: %s' % (exc_name(err), err), 'case': describe(case), 'finding': None}
 	want = expected_content(spec)
 	for i, w in enumerate(outs):
